@@ -39,6 +39,10 @@ type Oracle struct {
 // Env gives the rules access to the run and to (lazily) loaded programs.
 type Env struct {
 	R *core.Run
+	// Repo, GOOS, GOARCH select the tree and build context of Host(); defaults: the run's tree, linux/amd64.
+	Repo   string
+	GOOS   string
+	GOARCH string
 
 	mu     sync.Mutex
 	host   *load.Program
@@ -47,7 +51,12 @@ type Env struct {
 	e1     *e1Model
 }
 
-func NewEnv(r *core.Run) *Env { return &Env{R: r} }
+func NewEnv(r *core.Run) *Env { return &Env{R: r, Repo: r.RepoDir, GOOS: "linux", GOARCH: "amd64"} }
+
+// NewEnvFor is NewEnv for another tree and/or build context.
+func NewEnvFor(r *core.Run, repo, goos, goarch string) *Env {
+	return &Env{R: r, Repo: repo, GOOS: goos, GOARCH: goarch}
+}
 
 // Thorough reports whether the thorough tier was requested.
 func (e *Env) Thorough() bool { return e.R.Tier == "thorough" }
@@ -58,22 +67,22 @@ func (e *Env) Host() *load.Program {
 	e.mu.Lock()
 	defer e.mu.Unlock()
 	if e.host == nil {
-		p, err := load.Load(e.R.RepoDir, "linux", "amd64", true)
+		p, err := load.Load(e.Repo, e.GOOS, e.GOARCH, true)
 		if err != nil {
-			panic(fmt.Sprintf("cannot load %s: %v", e.R.RepoDir, err))
+			panic(fmt.Sprintf("cannot load %s (%s/%s): %v", e.Repo, e.GOOS, e.GOARCH, err))
 		}
 		if len(p.Pkgs) < 6 {
-			panic(fmt.Sprintf("only %d module packages loaded from %s, expected at least 6", len(p.Pkgs), e.R.RepoDir))
+			panic(fmt.Sprintf("only %d module packages loaded from %s, expected at least 6", len(p.Pkgs), e.Repo))
 		}
 		e.host = p
-		e.R.Count("packages (linux/amd64, type-checked + SSA)", len(p.Pkgs))
+		e.R.Count(fmt.Sprintf("packages (%s/%s, type-checked + SSA)", e.GOOS, e.GOARCH), len(p.Pkgs))
 	}
 	return e.host
 }
 
 // Target loads another build context (types + syntax of the module; SSA on demand).
 func (e *Env) Target(goos, goarch string, ssa bool, patterns ...string) (*load.Program, error) {
-	return load.Load(e.R.RepoDir, goos, goarch, ssa, patterns...)
+	return load.Load(e.Repo, goos, goarch, ssa, patterns...)
 }
 
 // Oracle returns the vendored oracle tables.
@@ -96,4 +105,15 @@ func (e *Env) Oracle() *Oracle {
 		e.oracle = &o
 	}
 	return e.oracle
+}
+
+// ENOSYS returns the errno value of ENOSYS for the analysed Linux architecture (89 on mips, 38 elsewhere).
+func (e *Env) ENOSYS() uint64 {
+	or := e.Oracle()
+	if per, ok := or.ConstsPerArch["ENOSYS"]; ok {
+		if v, ok := per[e.GOARCH]; ok && e.GOOS == "linux" {
+			return v
+		}
+	}
+	return or.Consts["ENOSYS"]
 }
